@@ -132,7 +132,7 @@ def r17_3_4(ctx, fx):
         return False
 
     def is_pos(f, o):
-        return any(r[0] == "call" and r[1].endswith("binary_search_by") for r in f.roots(o)) and not is_len(f, o)
+        return any(r[0] == "call" and re.search(r"binary_search_by(_key)?$", r[1]) for r in f.roots(o)) and not is_len(f, o)
     len_facts = guards.edge_facts(fn, is_len, bmax)
     pos_facts = guards.edge_facts(fn, is_pos, bmax)
     ctx.anchor("R17.4", "put_provider: comparison providers.len() vs max_providers_per_key", len({cn for *_, cn in len_facts}), 1, cfg=fx.cfg)
@@ -182,6 +182,10 @@ def r17_3_4(ctx, fx):
                     proj = "".join(str(x) for x in s_["lhs"][1:])
                     rs = guards.rootstrs(fn, s_["rv"]["o"]) if s_["rv"]["r"] == "use" else set()
                     whole.append((proj == "*" and any("Instant::now" in x for x in rs), fn.site(n_), proj))
+        for c in ims:
+            for m_ in fn.calls(r"mem::(replace|swap)$"):
+                if len(m_.args) == 2 and fn.producer(m_.args[0]) is not None and fn.producer(m_.args[0]).node == c.node:
+                    whole.append((any("Instant::now" in x for x in guards.rootstrs(fn, m_.args[1])), fn.site(m_.node), "*"))
         ctx.ob("R17.4", "put_provider/re-announcement-replaces-the-whole-record(fresh-expiry)", bool(whole) and all(w[0] for w in whole),
                site=fn.site(ims[0].node) if ims else fn.site(fn.entry), cfg=fx.cfg, detail="writes through the found slot: %s" % whole)
 
@@ -281,12 +285,13 @@ def r17_5(ctx, fx):
             ctx.ob("R17.5", "get_providers/retain-on-every-path-of-the-pruning-closure", bool(ret) and not bad, site=cl0.site(cl0.entry), cfg=fx.cfg)
             # the pruning closure is the one handed to is_some_and on provider_keys.get_mut, and that call dominates every exit
             isa = [c for c in fn.calls(r"Option::is_some_and$") if any(r[0] == "call" and r[1].endswith("HashMap::get_mut") for r in fn.roots(c.args[0]))]
+            isa += [c for c in fn.calls(r"Option::map_or$") if len(c.args) == 3 and fn.const_value(c.args[1]) == 0 and any(r[0] == "call" and r[1].endswith("HashMap::get_mut") for r in fn.roots(c.args[0]))]
             ctx.anchor("R17.5", "get_providers: provider_keys.get_mut(key).is_some_and(prune)", len(isa), 1, cfg=fx.cfg)
             if isa:
                 r = fn.reach([fn.entry], avoid=[isa[0].node])
                 bad = [n for n, _ in fn.exits() if n in r]
                 tail = cl0.key[len(fn.key) - len("get_providers"):]
-                clo = any(("const", "fn:" + cl0.key) in fn.roots(a) or any(x[0] == "const" and tail in str(x[1]) for x in fn.roots(a)) for a in isa[0].args[1:])
+                clo = any(("const", "fn:" + cl0.key) in fn.roots(a) or any(x[0] == "const" and tail in str(x[1]) for x in fn.roots(a)) for a in isa[0].args[-1:])
                 ctx.ob("R17.5", "get_providers/pruning-dominates-every-exit", not bad, site=fn.site(isa[0].node), cfg=fx.cfg)
                 ctx.ob("R17.5", "get_providers/pruning-closure-is-the-retain-closure", clo or closure_arg(fn, isa[0], tail), site=fn.site(isa[0].node), cfg=fx.cfg,
                        detail="roots: %s" % [sorted(guards.rootstrs(fn, a)) for a in isa[0].args[1:]])
@@ -344,7 +349,7 @@ def r17_7(ctx, fx):
                detail="local_providers must not grow when the bounded provider map refused the key")
 
 
-ORDER_PRESERVING = r"Vec(<.*>)?::(insert|remove|pop|retain|truncate|len|is_empty|iter|clone|binary_search_by|first|last|get|get_mut|iter_mut|clear|drain)$|Index(Mut)?(<.*>)?>?::index(_mut)?$|Deref(Mut)?>?::deref(_mut)?$|slice::(<impl .*>::)?(binary_search_by|iter|len|is_empty|first|last|get)$|Clone>?::clone$|IntoIterator>?::into_iter$|vec::from_elem$"
+ORDER_PRESERVING = r"Vec(<.*>)?::(insert|remove|pop|retain|truncate|len|is_empty|iter|clone|binary_search_by|binary_search_by_key|first|last|get|get_mut|iter_mut|clear|drain)$|Index(Mut)?(<.*>)?>?::index(_mut)?$|Deref(Mut)?>?::deref(_mut)?$|slice::(<impl .*>::)?(binary_search_by|binary_search_by_key|iter|len|is_empty|first|last|get)$|Clone>?::clone$|IntoIterator>?::into_iter$|vec::from_elem$"
 
 
 def r17_8(ctx, fx):
@@ -368,12 +373,12 @@ def r17_8(ctx, fx):
            detail="swap_remove / push / sort / reverse on the distance-sorted per-key list would break the binary searches: %s" % bad)
     fn = ctx.fn(fx, MS + "put_provider", "R17.8")
     if fn is not None:
-        bs = fn.calls(r"binary_search_by$")
+        bs = fn.calls(r"binary_search_by(_key)?$")
         ins = [c for c in fn.calls(r"Vec(<.*>)?::insert$") if from_field(fn, c.args[0], "provider_keys")]
         ctx.anchor("R17.8", "put_provider: binary_search_by + insert", min(len(bs), len(ins)), 1, cfg=fx.cfg)
         for c in ins:
             rs = guards.rootstrs(fn, c.args[1])
-            ok = any(x.endswith("binary_search_by") for x in rs) and not any(re.match(r"const:\d+$", x) for x in rs)
+            ok = any(re.search(r"binary_search_by(_key)?$", x) for x in rs) and not any(re.match(r"const:\d+$", x) for x in rs)
             sw = [sw for sw in fn.discr_switches() if bs and sw[1][0] in fn.copies_of(bs[0].dest[0])]
             ok = ok and bool(sw) and fn.only_via(c.node, sw[0][0], fn.variant_edges(sw[0], "Err"))
             ctx.ob("R17.8", "put_provider/insert-at-the-binary-search-position", ok, site=fn.site(c.node), cfg=fx.cfg, detail="index roots: %s" % sorted(rs))
@@ -383,10 +388,10 @@ def r17_8(ctx, fx):
         f2 = fx.fn(fkey)
         if f2 is None:
             continue
-        for c in f2.calls(r"binary_search_by$"):
+        for c in f2.calls(r"binary_search_by(_key)?$"):
             if len(c.args) < 2:
                 continue
-            q = c.args[1].get("m") or c.args[1].get("c")
+            q = c.args[-1].get("m") or c.args[-1].get("c")
             d = f2.single_def(q[0]) if q and len(q) == 1 else None
             if d is not None and d[1] == "assign" and d[2]["rv"]["r"] == "agg" and d[2]["rv"].get("closure"):
                 k = d[2]["rv"]["closure"]
@@ -401,6 +406,9 @@ def r17_8(ctx, fx):
         cmp_ = [c for c in cl.calls(r"cmp::Ord>?::cmp$|Ord(<.*>)?>?::cmp$") if c.dest == [0]]
         dist = cl.calls(r"ProviderRecord::distance$|Key(<.*>)?::distance$")
         ok = len(cmp_) == 1 and bool(dist) and any(("call", d.name) in cl.roots(cmp_[0].args[0]) for d in dist)
+        if not cmp_:
+            # `binary_search_by_key(&d, |p| p.distance())`: the key extractor returns the element's distance
+            ok = len(dist) == 1 and dist[0].dest == [0] and any(x.startswith("param:_2") for x in guards.rootstrs(cl, dist[0].args[0]))
         ctx.ob("R17.8", "%s/comparator-orders-by-distance" % (short(key) + key[key.index("::{closure"):]), ok, site=cl.site(cl.entry), cfg=fx.cfg)
 
 
